@@ -3,7 +3,7 @@ import random
 
 from common import MachineryError, seed
 from report import Report
-from alphabets import DEC, TABLES, LEGACY, IDX
+from alphabets import DEC, TABLES, LEGACY, LEGACY2, IDX
 import dec_engine as de
 import gens
 
@@ -428,6 +428,14 @@ def check_C18(tier):
         for v in vectors[:: max(1, len(vectors) // 2)][:2]:
             rep.sample({"compatible": compat, "input": "".join(v["inp"]), "expect": [v["kind"], v["out"]]})
         judge_mismatches(rep, "legacy_%s" % compat, mism, "default", compat, default_classify)
+    results, vectors = de.run_decoder_tlc("legacy2", LEGACY2, "default", 3 if quick else 4, compat=True, emit=True,
+                                          invariants=["CompatIsModern"], fastjit=quick)
+    add_results(rep, "legacy2_compat=True", results, alphabet=LEGACY2, vectors=len(vectors))
+    rng2 = random.Random(seed() + 18)
+    rng2.shuffle(vectors)          # one process sees the same legacy atom with different bond prefixes
+    mism = de.replay_decoder_vectors(vectors[:20000], "default", True)
+    rep.traces += min(len(vectors), 20000)
+    judge_mismatches(rep, "legacy2", mism, "default", True, default_classify)
     # modern-only strings: flag on = flag off (long random strings)
     rng = random.Random(seed() + 1818)
     inputs = [gens.alive_selfies(rng, rng.randint(3, 120)) for _ in range(200 if quick else 2000)]
